@@ -309,7 +309,7 @@ class C11(Sim):
     FAULT_KINDS = ["prng_handover", "forced_pivot"]
     PROBES = ["leaf_smaller_than_k", "empty_side_after_split", "all_equal_on_axis", "k>=n", "radius_zero",
               "query_on_data_point", "duplicates", "tie_at_kth", "radius_equals_data_distance",
-              "radius_hair_off_data_distance", "rebuild", "outside_query", "int_points", "caller_reuses_its_array", "second_tree_in_between"]
+              "radius_hair_off_data_distance", "rebuild", "outside_query", "int_points", "caller_reuses_its_array", "second_tree_in_between", "caller_query_buffer"]
     QUICK_RUNS = 2500
     THOROUGH_RUNS = 200000
     BLOCK = 20
@@ -498,7 +498,7 @@ class C11(Sim):
         if r.chance(cfg["check_rate"]):
             return {"c": c, "op": "leaves", "t": t}
         pk, pt = self._gen_point(r)
-        as_ = r.choice(["vec", "vec", "nd"])
+        as_ = r.choice(["vec", "vec", "nd", "buf", "buf"])
         n, L = self.n, tr["leaf"]
         if r.chance(0.55):
             ks = [1, 1, L - 1, L, L + 1, 2 * L + 1, n - 1, n, n + 3, r.randint(1, max(1, n)), r.randint(1, 6)]
@@ -582,6 +582,13 @@ class C11(Sim):
         return out
 
     def _mkpt(self, ev):
+        if ev.get("as") == "buf":
+            # ONE float64 array owned by the caller, overwritten in place before every query that uses it
+            if getattr(self, "_qbuf", None) is None or self._qbuf.shape != (len(ev["pt"]),):
+                self._qbuf = np.zeros(len(ev["pt"]), dtype=np.float64)
+            self._qbuf[:] = ev["pt"]
+            self.probes["caller_query_buffer"] += 1
+            return self._qbuf
         arr = np.array(ev["pt"], dtype=np.float64)
         return self.Vec(arr) if ev.get("as", "vec") == "vec" else arr
 
